@@ -68,6 +68,14 @@ class Vocab:
                 "defaults": dict(p["defaults"]),
             }
         self.all_keys = sorted({k for _, ks in self.templates for k, _ in ks})
+        # words that MEAN something in another layer, used as plain values: type names, key names, alias
+        # names, mapped path words, Python / format / regex / glob tokens
+        words = list(self.labels[:3]) + self.all_keys[:4] + sorted(self.aliases.keys())
+        for p in c["paths"]:
+            for _, m in p["mapping"]:
+                words += [pv for pv, _ in m][:2]
+        self.loaded_words = [w for w in dict.fromkeys(words) if w and "/" not in w] + \
+            ["None", "True", "{}", "{0}", "{project}", "%s", "\\d", "a|b", "(x)", "x:y", "a=b", "a&b", "~x", "x~", "__", "sid", "type"]
         # closed vocabulary per key (union over templates), without search symbols
         self.closed = {}
         for _, ks in self.templates:
@@ -88,6 +96,8 @@ class Vocab:
         if re_is_free(r):
             if self.aliases and rng.random() < 0.07:      # an entity NAMED like an extension alias
                 return rng.choice(sorted(self.aliases.keys()))
+            if not concrete_only and rng.random() < 0.06:  # ... or like anything that has a meaning elsewhere
+                return rng.choice(self.loaded_words)
             return rng.choice(FREE_POOL)
         ws = [w for w in re_words(r, rng) if w not in ("*", ">")]
         if concrete_only:
@@ -138,8 +148,10 @@ class Vocab:
             return self.near_miss(rng.choice(self.closed[k]))
         if x < 0.82:
             return rng.choice(SEARCH)
-        if x < 0.88:
+        if x < 0.86:
             return rng.choice(list(self.aliases.keys()) or ["maya"])
+        if x < 0.88:
+            return rng.choice(self.loaded_words)
         if x < 0.92:
             k = rng.choice(list(self.closed.keys()))
             return ",".join(rng.sample(self.closed[k], min(len(self.closed[k]), rng.randint(1, 3))))
